@@ -622,6 +622,12 @@ def _canon_index(interp, base, idx):
             changed = True
             out.append(_full_slice())
             continue
+        elif it.kind == "list" and it.items is not None and len(it.items) == 1 and (it.items[0].kind == "int" or (it.items[0].kind == "arr" and it.items[0].shape == ())) and sum(1 for z in items if z.kind in ("list", "arr")) == 1:
+            # a[[c]] / a[:, [c]]: the single element c with its axis kept
+            e = it.items[0]
+            out.append(V("slice1", T("slice1", e.term), items=[e], labels=it.labels))
+            changed = True
+            continue
         out.append(it)
     if all(o is _full_slice() for o in out):
         return None
